@@ -141,6 +141,31 @@ Proof.
   destruct (Z.testbit (le_num d) _), (Z.testbit (le_num d) _); reflexivity.
 Qed.
 
+(* the selectors built by the round function are already below 128: the reduction `off %= 128` only ever acts on i and i+64 *)
+Lemma land127_range : forall a, 0 <= Z.land a 127 < 128.
+Proof. intros a. change 127 with (Z.ones 7). rewrite Z.land_ones by lia. apply Z.mod_pos_bound. reflexivity. Qed.
+
+Theorem ind7_range : forall d j, 0 <= ind7 d j < 128.
+Proof. intros d j. unfold ind7. cbv zeta. apply land127_range. Qed.
+
+Theorem gather_bit_exact : forall d base j, Forall byte_ok d -> 0 <= j < 8 ->
+  Z.testbit (gather d base) j = Z.testbit (le_num d) (ind7 d (base + j)).
+Proof.
+  intros d base j Hd Hj. rewrite gather_bit by assumption.
+  rewrite Z.mod_small by apply ind7_range. reflexivity.
+Qed.
+
+Theorem coin_exact : forall d i, Forall byte_ok d ->
+  coin d i = xorb (Z.testbit (le_num d) (Z.land (Z.shiftr (gather d 0) (bit d i)) 127))
+                  (Z.testbit (le_num d) (Z.land (Z.shiftr (gather d 8) (bit d (u32 (i + 64)))) 127)).
+Proof.
+  intros d i Hd. rewrite coin_is_xor_of_digest_bits by exact Hd.
+  rewrite !(Z.mod_small (Z.land _ 127) 128) by apply land127_range. reflexivity.
+Qed.
+
+Print Assumptions gather_bit_exact.
+Print Assumptions coin_exact.
+
 Print Assumptions gather_bit.
 Print Assumptions gather_bound.
 Print Assumptions coin_is_xor_of_digest_bits.
